@@ -10,14 +10,15 @@ from .base import Result, V
 from . import simcommon as SC
 from . import simprop
 
-MODULES = ["TickitModel.Props.C06", "TickitModel.Props.C04", "TickitModel.Props.C06Run", "TickitModel.Props.C07", "TickitModel.Props.FlatInt", "TickitModel.Props.C07Loop"]
+MODULES = ["TickitModel.Props.C06", "TickitModel.Props.C04", "TickitModel.Props.C06Run", "TickitModel.Props.C07", "TickitModel.Props.FlatInt", "TickitModel.Props.C07Loop", 'TickitModel.Props.AnyTransfer', 'TickitModel.Props.AnyTransferC06']
 THEOREMS = ["addWakeup_lookup", "addWakeup_unique", "addWakeup_length", "firstWakeups_spec", "firstWakeups_none", "delWakeups_lookup",
             "delWakeups_unique", "served_then_later", "nestedDue_spec", "nestedDue_exact", "system_callback_is_min",
             "tick_time_provenance", "wake_not_before",
             "callback_exact", "callback_never_overtaken", "callback_first_update", "callback_served_one_tick", "time_strictly_increases",
             "flatRun_can_continue", "callback_eventually_served", "callback_eventually_observed", "callback_served_exists",
             "wake_entry_was_requested", "no_invented_tick", "callback_kept_by_silent_update", "interrupt_keeps_earlier_callback", "interrupt_keeps_earlier_callback_exact",
-            "wakeup_exactI", "wakeups_served_one_tickI", "tick_provenanceI", "wake_entry_provenanceI", "pending_not_overtakenI", "tick_serves_all_first_wakeups", "old_loop_serves_stale_set", "new_loop_serves_fresh_set"]
+            "wakeup_exactI", "wakeups_served_one_tickI", "tick_provenanceI", "wake_entry_provenanceI", "pending_not_overtakenI", "tick_serves_all_first_wakeups", "old_loop_serves_stale_set", "new_loop_serves_fresh_set",
+            'any_order_system_callback_is_min', 'any_order_nestedDue_exact', 'any_order_run_wakeWF', 'any_order_run_schedOK', 'any_order_next_tick_is_min_device_callback', 'any_order_run_refines_flatRun_wake', 'any_order_last_tick_requested']
 ANCHORS = ["src/tickit/core/management/schedulers/base.py", "src/tickit/core/management/schedulers/master.py",
            "src/tickit/core/management/schedulers/nested.py", "src/tickit/core/components/system_component.py"]
 TECHNIQUE = "Lean 4 theorems (wakeup bookkeeping: one entry per component, first wakeups = minimum and exactly its holders, served entries removed and everything left is strictly later, nested due-selection exact, system callback = inner minimum, tick-time provenance) + differential run of add_wakeup/get_first_wakeups and whole-simulation tick sequences against the model"
@@ -28,7 +29,7 @@ LEVEL_TEXT = ("Theorems over the scheduler bookkeeping for all wakeup maps and h
               "in flat callback histories every tick time is the initial time or a callback of one of its roots. At run level (Props/C06Run, flat multi-tick system, every answer order, devices that may change from tick to tick): a pending request of c for t is, in EVERY continuation of the run, either still pending with all new tick times < t, or c's first new update is at a time t1 <= t and, if t1 = t, in a tick at exactly t with c among its roots (callback_exact, callback_never_overtaken, callback_first_update); all components due at the minimum share one tick and each is updated in it (callback_served_one_tick); LIVENESS: when callbacks are requested strictly in the future tick times strictly increase, a run with a pending request can always be continued, and every continuation by at least t - t_last ticks contains the update (callback_eventually_served, flatRun_can_continue, callback_served_exists); no tick time is invented - every entry stems from the last update of its component that asked for one (wake_entry_was_requested, no_invented_tick; the checked counterexample callback_kept_by_silent_update shows that, as in the code, an update answering call_at=None keeps an older request). In the master's run loop (Props/C07Loop, tied by a trace acceptor) the tick that starts serves EXACTLY the components holding the minimum entry at that moment, whatever was registered while the sleep was expiring (tick_serves_all_first_wakeups; the original loop provably serves a stale set - defect F17). An interrupt never displaces an earlier, already due callback of the same component (interrupt_keeps_earlier_callback, master bookkeeping; this was defect F15). PARTIAL: callbacks inside nested systems interleaved with interrupts arriving mid-tick are validated on traces (nested callbacks-only and between-tick interrupts transfer through C09's transparency theorem). Tie to the code: differential op sequences on a real scheduler's add_wakeup/get_first_wakeups, and the tick "
               "sequence (times, roots) of generated flat/nested simulations with periodic, one-shot, re-planned and simultaneous callbacks and "
               "interrupts compared with the Lean whole-simulation model, plus a device-level monitor (requested callback served at exactly that time "
-              "unless updated earlier).")
+              "unless updated earlier). FOR ANY ANSWER ORDER AT EVERY NESTING LEVEL (every scheduler level answers its pending dispatches in ANY order, a system component's answer is any such execution of its inner level; Core/SimAny; none of these corollaries assumes that the first-in first-out model succeeds - that follows from the existence of the execution) (Props/AnyTransfer, AnyTransferC06): a system component reports the tick time while interrupts are queued and otherwise exactly the minimum of its inner wakeups (any_order_system_callback_is_min), the inner roots are exactly the entries due at the tick's time (any_order_nestedDue_exact), at every depth of every run a system's callback at its parent is the minimum of its inner wakeups and the next master tick is the minimum device callback (any_order_run_schedOK, any_order_next_tick_is_min_device_callback), and every any-order run refines a FlatRun whose wakeups are the devices' own entries (any_order_run_refines_flatRun_wake, any_order_last_tick_requested). Not transferred: the run-level continuation theorems (callback_exact, callback_never_overtaken, callback_eventually_served) are stated for the flat system only.")
 LEVEL_NOTE = "Trusts: Lean kernel; hand-written bookkeeping model; whole-simulation comparison uses zero processing cost."
 ASSUMPTIONS = ["liveness: callbacks are requested strictly in the future (otherwise a device can keep the simulation at one instant forever)",
                "whole-simulation model comparison uses zero processing cost; histories with real-time cost are checked by monitors"]
